@@ -129,6 +129,8 @@ def angles_for(ranks, rng):
     """distinct tilt angles without near-ties whose ascending order is the given rank vector"""
     n = len(ranks)
     vals = set()
+    if rng.random() < 0.3:
+        vals.add(0.0)                               # the untilted image: an angle of exactly 0
     while len(vals) < n:
         vals.add(round(rng.uniform(-70.0, 70.0), 1) + rng.choice([0.0, 0.03]))
     asc = sorted(vals)
